@@ -373,7 +373,9 @@ Record wf (j : jstate) : Prop := {
   (* eager loading: no live object = destructed in this block, or absent from the pre-state *)
   wf_eager : ∀ a, j_objs j !! a = None → a ∈ j_destruct j ∨ j_db j !! a = None;
   (* dirty storage implies a live journal entry *)
-  wf_dirtymut : ∀ a o, j_objs j !! a = Some o → o_dirty o ≠ ∅ → a ∈ dom (j_muts j)
+  wf_dirtymut : ∀ a o, j_objs j !! a = Some o → o_dirty o ≠ ∅ → a ∈ dom (j_muts j);
+  (* a self-destruct mark implies a live journal entry *)
+  wf_sdmut : ∀ a o, j_objs j !! a = Some o → o_sd o = true → a ∈ dom (j_muts j)
 }.
 
 Definition core_op (o : op) : bool :=
@@ -547,6 +549,7 @@ Proof.
   - intros a a' idx. by rewrite lookup_empty.
   - intros a o (x & <- & _)%lookup_fmap_Some. done.
   - intros a. rewrite lookup_fmap fmap_None. by right.
+  - intros a o (x & <- & _)%lookup_fmap_Some. done.
   - intros a o (x & <- & _)%lookup_fmap_Some. done.
 Qed.
 
